@@ -208,6 +208,14 @@ Proof.
     exists st6. cbn [app] in E6. split; [exact E6|exact A6].
 Qed.
 
+Lemma root_ser_total root : RootCanon root -> exists body, SER root 0 false = Val body.
+Proof.
+  intros RC. destruct RC as [e v401 nm attrs content cm mode named EE V401 CMO (TS & _) [AF _] HDR CM SH CK NV NAMED].
+  destruct (ser_attrs_total T tab_at tab_en check_fn float_fmt float_parse v401 _ attrs AF) as (ats & SA & _ & _).
+  destruct (children_items T tab_el tab_at tab_en check_fn float_fmt float_parse ver _ mode content [] [] CK) as [KC KT].
+  exact (node_ser_total T tab_el tab_at tab_en check_fn float_fmt float_parse ver _ _ attrs content cm nm mode ats 0%nat false TS SA CM KC KT).
+Qed.
+
 (* through ArxmlFile::serialize: it first rewrites the root's xsi:schemaLocation for the file version (set_version);
    for a root that already carries the canonical spelling that is the identity *)
 Theorem serialize_load_roundtrip root sa bs : RootCanon root ->
